@@ -32,6 +32,13 @@ CONFIGS = [
     ("GenMac", {"target_os": "macos", "target_arch": "aarch64", "unix": True}, 64,
      ["injector_core/common.rs"],
      ["inject_asm_code", "patch_function", "drop"]),
+    # the Windows / AArch64 allocator (VirtualAlloc loop): translated on its own, judged on the translated code
+    ("GenWinA64", {"target_os": "windows", "target_arch": "aarch64", "windows": True}, 64,
+     ["injector_core/winapi.rs", "injector_core/common.rs"],
+     ["allocate_jit_memory_windows"]),
+    ("GenWinX64", {"target_os": "windows", "target_arch": "x86_64", "windows": True}, 64,
+     ["injector_core/winapi.rs", "injector_core/common.rs"],
+     ["allocate_jit_memory_windows"]),
     # the interface layer (architecture-independent; read in the x86-64 / Linux configuration)
     ("GenIf", {"target_os": "linux", "target_arch": "x86_64", "unix": True}, 64,
      ["interface/injector.rs", "interface/verifier.rs", "interface/func_ptr.rs", "injector_core/internal.rs"],
@@ -88,6 +95,11 @@ def translate_config(repo, ns, cfg, bits, files, roots):
         rs2lean.EXTERNALS["patch_function"] = (None,)
     else:
         rs2lean.EXTERNALS.pop("patch_function", None)
+    for k, kind in (("VirtualAlloc", "ptr"), ("VirtualFree", "i32"), ("get_page_size", "ptr")):
+        if cfg.get("target_os") == "windows":
+            rs2lean.EXTERNALS[k] = (kind,)
+        else:
+            rs2lean.EXTERNALS.pop(k, None)
     for k in ("pthread_jit_write_protect_np", "sys_dcache_flush", "sys_icache_invalidate", "mach_vm_protect", "mach_vm_remap"):
         if cfg.get("target_os") == "macos":
             rs2lean.EXTERNALS[k] = (None,)
